@@ -437,6 +437,10 @@ class KernelCallable:
             v = scalars[s.name]
             if ctx.mode == "float":
                 v = ctx.dtype(v)
+            elif isinstance(v, (float, np.floating)):
+                v = rationalise(float(v))  # runtime float scalars (1.0, -1.0, 0.75, 1/3 ...) in exact mode
+            elif isinstance(v, (int, np.integer)):
+                v = Fraction(int(v))
             env[s] = v
         return env
 
